@@ -1,7 +1,7 @@
 """Per-property definitions: theorems pinned, case generators, projections, oracles."""
 import itertools, random, re
 from . import gen
-from .core import hx
+from .core import hx, coq_read_all
 from . import sexp as SX
 
 PROPS = {}
@@ -355,12 +355,12 @@ class C04(Prop):
         if texts is None:
             return "the implementation does not produce a program where the model does"
         for t in texts:
-            forms = SX.read_all(t)
+            forms = read_forms(t)
             if forms is None or len(forms) != 2:
                 return "the emitted text does not read back as exactly two top-level forms"
         mt = scheme_of(model)
         if mt:
-            fi, fm = SX.read_all(texts[0]), SX.read_all(mt[0])
+            fi, fm = read_forms(texts[0]), read_forms(mt[0])
             if fi != fm:
                 return "the emitted program reads back as a different structure than the one the property demands"
         return None   # only layout differs
@@ -680,13 +680,21 @@ class C09(Prop):
         return oracle_program(case, impl, model)
 
 
+def read_forms(text):
+    """the specified reader (extracted from Coq); the Python reader is only a fallback"""
+    try:
+        return coq_read_all([text])[0]
+    except Exception:
+        return SX.read_all(text)
+
+
 def oracle_program(case, impl, model):
     ti, tm = scheme_of(impl), scheme_of(model)
     if (ti is None) != (tm is None):
         return "the implementation compiles where the property demands an error, or the reverse"
     if ti is None:
         return "different error"
-    fi, fm = SX.read_all(ti[0]), SX.read_all(tm[0])
+    fi, fm = read_forms(ti[0]), read_forms(tm[0])
     if fi is None:
         return "the emitted program does not read back"
     if fi != fm:
@@ -793,7 +801,7 @@ class C11(Prop):
     def oracle(self, case, impl, model):
         ti = scheme_of(impl)
         if ti:
-            forms = SX.read_all(ti[0])
+            forms = read_forms(ti[0])
             if forms is None:
                 return "the emitted program does not read back"
             why = SX.scope_check(forms)
@@ -1219,7 +1227,7 @@ class C20(Prop):
         if ti is None or tm is None or len(ti) != len(tm):
             return "different outcome"
         for a, b in zip(ti, tm):
-            fa, fb = SX.read_all(a), SX.read_all(b)
+            fa, fb = read_forms(a), read_forms(b)
             if fa is None:
                 return "a rendering does not read back"
             if fa != fb:
